@@ -47,6 +47,8 @@ opk! {
     SInsert, SReplace, SRemove, STake, SGet, SContains, SGetOrInsert, SGetOrInsertOwned, SGetOrInsertWith,
     // ---- safety-only (reference switched off afterwards)
     RawInsertWrongHash,
+    // ---- extend with an iterator whose size_hint lower bound is near the integer limits
+    ExtendHint,      // arg: hint selector
 }
 
 #[derive(Clone, Copy, PartialEq, Eq, Hash, PartialOrd, Ord)]
